@@ -109,6 +109,10 @@ def _compare_step(r, pre, post, res, pre0, post0, res0, world=None, world0=None)
     """A program step after rejected calls against the same step of the fault-free trace.
     Returns None (equal), "stop" (the fault-free trace is no reference from here on) or a description."""
     spec = (res.info or {}).get("spec") or {}
+    if r["do"].endswith(".contract") and float(r.get("tol") or 0.0) > 1e-6:
+        # an explicit contraction with the caller's own tolerance may change the state by that much, and
+        # by how much depends on the block layout a rejected call may have changed: no reference afterwards
+        return "stop"
     if r["do"] in ("measure", "povm") and res.status == "ok" and res0.status == "ok" and world is not None:
         if runner.ret_digest(world, res.ret) != runner.ret_digest(world0, res0.ret):
             # a rejected call may legitimately have changed the tensor order of a product space, and
